@@ -105,6 +105,9 @@ struct St {
     nested_ev: u64,
     nested_active: Option<usize>,
     fail_next: Option<i32>,
+    /// buggify: one in `bug_rate` page reads / writes is cut short or interrupted (0 = off)
+    bug_rate: u64,
+    bug_rng: u64,
 }
 
 pub struct SimDisk {
@@ -181,11 +184,23 @@ impl SimDisk {
                 dirs: Vec::new(), step: 0, ev_in_step: 0, seq: 0, faults, persistent_fail: None, images: Vec::new(), knobs,
                 probes: BTreeMap::new(), fired: BTreeMap::new(), kinds: BTreeMap::new(), sig: 0, trace: Vec::new(), keep_trace,
                 enabled: true, img_counter: 0, reads: 0, delivered_errors: Vec::new(), adopt_level: 0,
-                nested_plan: Vec::new(), nested_ev: 0, nested_active: None, fail_next: None,
+                nested_plan: Vec::new(), nested_ev: 0, nested_active: None, fail_next: None, bug_rate: 0, bug_rng: 0,
             }),
             scratch,
             yield_on_events,
         }
+    }
+
+    /// Legal-but-unusual behaviour of the page I/O calls, decided by a PRNG of the run's own
+    /// (drawn in event order, which the scheduler fixes): short transfers and EINTR, which the
+    /// caller must absorb by retrying.
+    pub fn set_buggify(&self, rate: u64, seed: u64) { let mut st = self.st.lock().unwrap(); st.bug_rate = rate; st.bug_rng = seed | 1; }
+    fn bug_draw(st: &mut St) -> Option<Verdict> {
+        if st.bug_rate == 0 { return None; }
+        st.bug_rng = st.bug_rng.wrapping_add(0x9E3779B97F4A7C15);
+        let mut z = st.bug_rng; z = (z ^ (z >> 30)).wrapping_mul(0xBF58476D1CE4E5B9); z = (z ^ (z >> 27)).wrapping_mul(0x94D049BB133111EB); z ^= z >> 31;
+        if z % st.bug_rate != 0 { return None; }
+        Some(if (z >> 20) & 1 == 0 { Verdict::Short(1 + ((z >> 32) % 4095) as usize) } else { Verdict::Eintr })
     }
 
     /// Start tracking `dir`: everything in it now counts as durable.
@@ -392,7 +407,11 @@ impl Observer for SimDisk {
             if !st.enabled { return Verdict::Proceed; }
             let Some((di, fname)) = Self::resolve(st, fd, op) else { return Verdict::Proceed };
             *st.kinds.entry(site.to_string()).or_default() += 1;
-            if let Op::Read { .. } = op { st.reads += 1; return Verdict::Proceed; }
+            if let Op::Read { .. } = op {
+                st.reads += 1;
+                if site == "pool.read" && st.dirs[di].level == 0 { if let Some(v) = Self::bug_draw(st) { Self::fire(st, if matches!(v, Verdict::Eintr) { "eintr:page-read" } else { "short:page-read" }); return v; } }
+                return Verdict::Proceed;
+            }
             if matches!(op, Op::Lock(_) | Op::Unlock) {
                 let task = simrt::shuttle::thread::current().name().unwrap_or("main").to_string();
                 if st.keep_trace { let (seq, step, ev) = (st.seq, st.step, st.ev_in_step); st.trace.push(EventRec { seq, step, ev, dir: st.dirs[di].id, file: fname, site, kind: if matches!(op, Op::Unlock) { 'U' } else { 'L' }, off: 0, len: 0, task, failed: false }); }
@@ -437,6 +456,7 @@ impl Observer for SimDisk {
                         FaultKind::Stall { steps } => { stall = steps; Self::fire(st, "stall:n-steps"); }
                     }
                 }
+                if verdict == Verdict::Proceed && site == "pool.write" { if let Some(v) = Self::bug_draw(st) { Self::fire(st, if matches!(v, Verdict::Eintr) { "eintr:page-io" } else { "short:page-io" }); verdict = v; } }
                 if verdict == Verdict::Proceed { if let Some(e) = st.persistent_fail { verdict = Verdict::Fail(e); } }
                 if verdict == Verdict::Proceed { if let Some(e) = st.fail_next.take() { verdict = Verdict::Fail(e); } }
             } else if st.nested_active == Some(level) {
